@@ -88,6 +88,9 @@ impl Proc {
     pub fn start(bin: &Path, args: &[String], env: &[(String, String)], probe_addrs: &[String], wait: Duration) -> Result<Proc, String> {
         let mut cmd = Command::new(bin);
         cmd.args(args).env_clear().env("RUST_LOG", "warn").env("PATH", "/usr/bin:/bin");
+        if let Ok(tz) = std::env::var("TZ") {
+            cmd.env("TZ", tz);
+        }
         for (k, v) in env {
             cmd.env(k, v);
         }
